@@ -67,3 +67,43 @@ example : okOf (appendParameter .Request {} [64, 116]) = some { named := [("Type
 example : errOf (appendParameter .Tags {} [116]) = some .incorrect := by decide
 
 end JSight.C17P
+
+namespace JSight.C17P
+open JSight JSight.Param Gen
+
+/-- the names under which `AppendParameter` stores values — exactly the names the catalog construction
+(`Model/Build.lean`, `BDir.param`) reads -/
+def knownNames : List String :=
+  ["Path", "SchemaNotation", "Type", "Name", "Format", "QueryExample", "Version", "Title", "ProtocolName",
+   "MethodName", "TagName"]
+
+theorem setNamed_names {p p' : Params} {k : String} {v : Bytes} (h : setNamed p k v = .ok p') :
+    p'.named = p.named ++ [(k, v)] ∧ p'.unnamed = p.unnamed := by
+  unfold setNamed at h
+  split at h
+  · cases h
+  · injection h with h; subst h; exact ⟨rfl, rfl⟩
+
+/-- a parameter is stored under a known name, or (Tags) appended to the unnamed ones; nothing else changes -/
+theorem appendParameter_names (k : Kind) (p p' : Params) (raw : Bytes) (h : appendParameter k p raw = .ok p') :
+    (∃ n ∈ knownNames, p'.named = p.named ++ [(n, unescape raw)] ∧ p'.unnamed = p.unnamed) ∨
+    (k = .Tags ∧ p'.named = p.named ∧ p'.unnamed = p.unnamed ++ [unescape raw]) := by
+  unfold appendParameter at h
+  cases k <;> simp only at h <;>
+    first
+    | (cases h; done)
+    | (left; first
+        | exact ⟨_, by decide, setNamed_names h⟩
+        | (split at h <;> first
+            | exact ⟨_, by decide, setNamed_names h⟩
+            | (split at h <;> first
+                | exact ⟨_, by decide, setNamed_names h⟩
+                | (split at h <;> first
+                    | exact ⟨_, by decide, setNamed_names h⟩
+                    | (cases h; done)))
+            | (cases h; done)))
+    | (right; split at h
+       · injection h with h; subst h; exact ⟨rfl, rfl, rfl⟩
+       · cases h)
+
+end JSight.C17P
